@@ -125,7 +125,15 @@ func init() {
 					flags = "!EXCEPTION-RETURNED"
 				}
 			}
-			return ruleTexts(out) + flags, mi, nExc > 0 && len(nr) > 1
+			// the getters are pure: asking again, in any order, gives the same answers and leaves NetworkRules alone
+			first, before := ruleTexts(out), ruleTexts(nr)
+			all1 := ruleTexts(res.DNSRewritesAll())
+			again := ruleTexts(res.DNSRewrites())
+			all2 := ruleTexts(res.DNSRewritesAll())
+			if again != first || all1 != all2 || ruleTexts(res.NetworkRules) != before {
+				flags += "!GETTERS-NOT-IDEMPOTENT"
+			}
+			return first + flags, mi, nExc > 0 && len(nr) > 1
 		},
 	})
 }
